@@ -103,21 +103,26 @@ func c18Observers(p *core.Program, r *core.Report) {
 		ps, over := paths.Enumerate(add.Decl.Body, paths.Config{Info: info, Inline: in.Body, Expand: in.Expand,
 			Classify: func(n ast.Node) []paths.Event {
 				as, ok := n.(*ast.AssignStmt)
-				if !ok || len(as.Lhs) != len(as.Rhs) {
+				if !ok {
 					return nil
 				}
 				var out []paths.Event
-				for i, l := range as.Lhs {
-					ix, ok := ast.Unparen(l).(*ast.IndexExpr)
-					if !ok {
-						continue
-					}
-					if _, isMap := info.TypeOf(ix.X).Underlying().(*types.Map); !isMap {
-						continue
-					}
-					k, okk := ast.Unparen(ix.Index).(*ast.Ident)
-					v, okv := ast.Unparen(as.Rhs[i]).(*ast.Ident)
-					if okk && okv && len(params) >= 2 && info.ObjectOf(k) == params[0] && info.ObjectOf(v) == params[1] {
+				// the observer handed in is stored into the state of the registry: a map slot, a field of
+				// a remembered entry, an entry appended to a list
+				mentions := false
+				for _, rh := range as.Rhs {
+					ast.Inspect(rh, func(m ast.Node) bool {
+						if id, ok := m.(*ast.Ident); ok && len(params) >= 2 && info.ObjectOf(id) == params[1] {
+							mentions = true
+						}
+						return true
+					})
+				}
+				if !mentions {
+					return nil
+				}
+				for _, l := range as.Lhs {
+					if root := rootOf(l); root != nil && root.Name == recvName(add) {
 						out = append(out, paths.Event{Kind: "REGISTER", Pos: as.Pos()})
 					}
 				}
